@@ -275,6 +275,11 @@ Section WithLabels.
 Variable lower : lbl -> lbl.
 Variable suffix : lbl -> Z -> lbl.
 Variable locus : Z -> lbl.
+(* VARIANT SWITCH (DESIGN 5.2, finding extend-self-hang): true = CharacterDataSequence.extend walks a
+   live generator over its argument, so a sequence extended by itself never finishes (the code as it is
+   now); false = the argument is materialised first (the proposed repair).  Which form the working tree
+   has is observed by the harness on every run and passed in the case. *)
+Variable self_extend_live : bool.
 
 (* `label in character_subsets` (caseless) *)
 Definition has_key (l : lbl) (ss : subsets) : bool :=
@@ -487,10 +492,10 @@ Definition step (w : world) (o : op) : world * out :=
   | ReplaceSeqs m o => with2 w m o (fun mm mo => lift w m (replace_sequences mm mo) OUnit)
   | UpdateSeqs m o => with2 w m o (fun mm mo => lift w m (update_sequences mm mo) OUnit)
   | ExtendSeqs m o addnew =>
-    with2 w m o (fun mm mo => if Z.eqb m o then lift w m (extend_by_self mm) OUnit
+    with2 w m o (fun mm mo => if Z.eqb m o && self_extend_live then lift w m (extend_by_self mm) OUnit
                               else lift w m (extend_sequences mm mo addnew) OUnit)
   | ExtendMatrix m o =>
-    with2 w m o (fun mm mo => if Z.eqb m o then lift w m (extend_by_self mm) OUnit
+    with2 w m o (fun mm mo => if Z.eqb m o && self_extend_live then lift w m (extend_by_self mm) OUnit
                               else lift w m (extend_matrix mm mo) OUnit)
   | RemoveSeqs m ts =>
     with1 w m (fun T mm => let '(rs, e) := remove_rows (m_rows mm) ts in
@@ -555,13 +560,14 @@ Record case := mkCase {
   c_lower : list (lbl * lbl);                    (* str.lower on the label pool *)
   c_suffix : list (lbl * list (Z * lbl));        (* "%s_%03d" % (l, i) on the pool *)
   c_locus : list (Z * lbl);                      (* "locus%03d" % i *)
+  c_live : bool;                                 (* variant observed on the implementation *)
   c_nss : list (nsid * list tid);
   c_init : list (mid * matrix);
   c_ops : list op;
   c_expected : list (out * list (mid * matrix))  (* per step: result, matrices that changed *)
 }.
 
-Definition case_step (c : case) := step (tbl1 (c_lower c) (fun x => x)) (tbl2 (c_suffix c)) (tbl1 (c_locus c) (fun i => -(2000000 + i))).
+Definition case_step (c : case) := step (tbl1 (c_lower c) (fun x => x)) (tbl2 (c_suffix c)) (tbl1 (c_locus c) (fun i => -(2000000 + i))) (c_live c).
 
 Definition case_world (c : case) : world := mkW (c_nss c) (c_init c) (zlen (c_init c)).
 
